@@ -1,5 +1,6 @@
 """C17 -- tilt-series metadata: mdoc round-trip, loaders and wedge lists are consistent"""
 from .common import *
+from . import C02 as _star
 from . import C09 as _c09
 from sa import apicompat
 
@@ -426,6 +427,39 @@ def o175(ctx):
             ctx.count(1)
 
 
+def o178(ctx):
+    """z_shift_load / dimensions_load with one value for all tomograms: the value comes back unchanged (fractional shifts included), whether it
+    is a Python number or a numpy scalar (the batch function hands every tomogram's shift on as a numpy scalar)"""
+    q = "ioutils.z_shift_load"
+    m, fn = ctx.prog.func(q)
+    ctx.touched(q)
+
+    def assume(fn_, node_, av_, module_=None):
+        n_, neg = node_, False
+        while isinstance(n_, ast.UnaryOp) and isinstance(n_.op, ast.Not):
+            n_, neg = n_.operand, not neg
+        if isinstance(n_, ast.Call) and isinstance(n_.func, ast.Name) and n_.func.id == "isinstance" and len(n_.args) == 2 \
+                and ast.unparse(n_.args[0]) == "input_shift":
+            names = {ast.unparse(x).split(".")[-1] for x in (n_.args[1].elts if isinstance(n_.args[1], ast.Tuple) else [n_.args[1]])}
+            return bool(names & {"float", "int", "number", "floating", "integer", "float64", "Real", "Number"}) != neg
+        return None
+
+    it = Interp(ctx.prog, assume=assume)
+    r = it.run(q, [P("zs")], {})
+    f = r.ret
+    if not isinstance(f, Frame) or "z_shift" not in f.cols:
+        raise Unsupported("z_shift_load(<number>) does not return a table with a z_shift column", fn)
+    v = tm.equivalent(f.cols["z_shift"], sym("zs"), samplers={"zs": lambda rng: float(rng.integers(-60, 60)) + float(rng.choice([0.0, 0.25, 0.5, 0.75]))},
+                      n=30, seed_tag=q)
+    ctx.count(1, {"z_shift_load(number)": tm.show(f.cols["z_shift"])[:80], "equal": bool(v)})
+    if not v:
+        ctx.finding(q, "scalar input", f"a single z-shift must come back as given (fractional values included); the table holds {tm.show(f.cols['z_shift'])[:80]}",
+                    fn, m, witness=v.witness)
+    ctx.count(1)
+    if f.order != ["z_shift"]:
+        ctx.finding(q, "scalar input", f"a single z-shift gives a one-column table named z_shift (got {f.order})", fn, m)
+
+
 def o177(ctx):
     """the module-level wrappers write the very object they return: the file is produced by Mdoc.write of the updated object"""
     src = lambda n: " ".join(ast.unparse(n).split())
@@ -463,6 +497,9 @@ def o177(ctx):
 
 def _obligations():
     return [
+        Obligation("O17.8", "z_shift_load(number) hands the value back unchanged, Python number or numpy scalar", o178, floor=2),
+        Obligation("O17.9", "wedge lists on disk: the STAR writer's header and row text read back to the table (shared with C02)",
+                   lambda ctx: (_star.o23(ctx), _star.o25(ctx)), floor=200),
         Obligation("O17.7", "mdoc wrappers (remove_images, sort_mdoc_by_tilt_angles) write the updated object they return, through Mdoc.write", o177, floor=6),
         Obligation("O17.6", "loaders: tlt_load passes arrays / lists through and returns every file value (sorted only on request); total_dose_load hands doses back as given (shared with C09)", lambda ctx: (_c09.o96(ctx), _c09.o98(ctx)), floor=12),
         Obligation("O17.1", "library calls of loaders, mdoc and wedge-list builders exist in the installed pandas", o171, floor=15),
